@@ -31,7 +31,7 @@ EXPLANATION += (' ' + 'ELEM/schema-child and ELEM/schema-attr (sa/xmltags.py, sa
 TRUSTED = ['ElementTree API types', 'circle-of-fifths / letter oracle', 'constant folding']
 NOT_DECIDED = ['onset/duration values', 'time-signature repair of partial measures', '.text on a possibly missing child (AttributeError) for ill-formed scores - outside the quantifier (well-formed scores)']
 ASSUMPTIONS = []
-FLOORS = {'ELEM/schema-child': 70, 'ELEM/schema-attr': 8, 'ELEM': 12, 'PITCH': 6, 'CONV': 8, 'KEY': 17, 'KIND': 40, 'FIG': 2, 'CONTAIN': 4}
+FLOORS = {'STATE/part-reset': 4, 'ELEM/schema-child': 70, 'ELEM/schema-attr': 8, 'ELEM': 12, 'PITCH': 6, 'CONV': 8, 'KEY': 17, 'KIND': 40, 'FIG': 2, 'CONTAIN': 4}
 
 LETTER_PC = {'C': 0, 'D': 2, 'E': 4, 'F': 5, 'G': 7, 'A': 9, 'B': 11}
 
@@ -48,6 +48,7 @@ def run(ctx):
   kinds(ctx)
   contain(ctx)
   schema_navigation(ctx)
+  part_state(ctx)
   from sa import state
   mi = ctx.P.module('musicxml_parser')
   for ci in sorted(mi.all_classes.values(), key=lambda c: c.qualname):
@@ -488,7 +489,58 @@ def schema_navigation(ctx):
     ctx.note('untracked receiver at %s: %s' % (loc(mi, node), why))
 
 
+# ------------------------------------------------------------------ per-part parser state
+# One MusicXMLParserState object is shared by all parts of a score.  Fields the property scopes to the part must be
+# re-initialised when a part starts; the others are score-wide by the parser's design.
+PER_PART = {
+    'time_position': ('const', 0, '"each part restarts at zero"'),
+    'transpose': ('const', 0, '"the part\'s chromatic transposition": a part without <transpose> is not transposed'),
+    'midi_channel': ('score_part', 'midi_channel', '"the part\'s ... MIDI channel"'),
+    'midi_program': ('score_part', 'midi_program', '"the part\'s ... program"'),
+}
+SCORE_WIDE = {
+    'divisions': 'set by <attributes> of every part before its first note in complete measures',
+    'qpm': 'tempo marks apply to the whole score (the reader reports them score-wide)',
+    'seconds_per_quarter': 'derived from qpm',
+    'velocity': 'dynamics carry over as in the original parser (not a clause of the property)',
+    'previous_note': 'set by every non-chord note before it is read by a chord note',
+    'time_signature': 'one time signature for all parts (polymeter unsupported by design)',
+}
+
+
+def part_state(ctx):
+  mi = ctx.P.module('musicxml_parser')
+  written = {}
+  for fi in mi.all_functions.values():
+    if fi.qualname.startswith('MusicXMLParserState.'):
+      continue
+    for st in U.walk_stmts(fi.node):
+      for tgt, _v, _o in U.store_targets(st):
+        if isinstance(tgt, ast.Attribute) and isinstance(tgt.value, ast.Attribute) and tgt.value.attr in ('state', '_state') and \
+            isinstance(tgt.value.value, ast.Name) and tgt.value.value.id == 'self':
+          written.setdefault(tgt.attr, []).append((fi, st))
+  unknown = sorted(set(written) - set(PER_PART) - set(SCORE_WIDE))
+  if unknown:
+    raise AnalysisError('parser state field(s) %s are written but classified neither per-part nor score-wide: cannot decide the per-part reset rule' % unknown)
+  part = ctx.func('musicxml_parser:Part._parse')
+  loop = next((i for i, st in enumerate(part.node.body) if isinstance(st, ast.For) and any(isinstance(c, ast.Call) and dotted(c.func) == 'Measure' for c in ast.walk(st))), None)
+  ctx.require(loop is not None, 'Part._parse: the loop constructing Measure objects was not found')
+  for f, (kind, val, why) in sorted(PER_PART.items()):
+    sts = [st for st in part.node.body[:loop] if isinstance(st, ast.Assign) and len(st.targets) == 1 and isinstance(st.targets[0], ast.Attribute) and st.targets[0].attr == f and
+           norm_text(st.targets[0].value) in ('self._state', 'self.state')]
+    ok = len(sts) == 1
+    if ok and kind == 'const':
+      ok = U.const_value(sts[0].value) == val
+    elif ok:
+      ok = norm_text(sts[0].value) == 'self.score_part.' + val
+    ctx.ob('STATE/part-reset', part, sts[0] if sts else part.node, ok, 'state.%s is re-initialised when a part starts (%s)' % (f, why) if ok else
+           'the shared parser state field %s is not re-initialised at the start of a part (%s): it leaks from the previous part' % (f, why),
+           construct='Part._parse resets state.%s' % f)
+
+
 MUTANTS = [
+    Mutant('seed C05_e: the transposition is not reset between parts', P, "    self._state.transpose = 0\n", "", rule='STATE/part-reset'),
+    Mutant('the cursor is not reset between parts', P, "    self._state.time_position = 0\n", "", rule='STATE/part-reset'),
     Mutant('seed C05_b: bass alteration read from root-alter', P, "alter_tag='bass-alter'", "alter_tag='root-alter'", rule='ELEM/schema-child'),
     Mutant('root step read as <step>', P, "step_tag='root-step'", "step_tag='step'", rule='ELEM/schema-child'),
     Mutant('pitch alteration read from <accidental>', P, "    if xml_pitch.find('alter') is not None:\n      alter_text = xml_pitch.find('alter').text", "    if xml_pitch.find('accidental') is not None:\n      alter_text = xml_pitch.find('accidental').text", rule='ELEM/schema-child'),
